@@ -198,7 +198,7 @@ pub fn campaigns(ctx: &Ctx) -> Stats {
             Some(Case6::F(FwdCase { op: refmodel::ir::OpKind::Conv { sr, sc }, leaves: vec![LeafSpec { dims: image, vals: iv, tracked: false }, LeafSpec { dims: filters, vals: fv, tracked: false }], force_exact: None, second_is_view_of_first: None }))
         }));
     }
-    let total = t.pick(15000u64, 300000);
+    let total = t.pick(60000u64, 300000);
     let mxi = t.pick(10usize, 14);
     let strat = move || {
         (prop::collection::vec(1..=3usize, 0..=2), 1..=3usize, 1..=mxi, 1..=mxi, 1..=4usize, 1..=4usize, 1..=4usize, 1..=4usize, 1..=4usize, any::<u64>())
